@@ -304,10 +304,117 @@ def second_pass(ctx):
         ctx.notes.append('KF-C13-4 (proposed, not registered in known_findings.json): %d witnesses — a comment after a comparison becomes its `right`' % pending)
 
 
+# --- round-4 hardening: every clause-core shape x every place a query can stand -----------------------------------------------------------------
+# wrappers: the query itself, as a subquery that an EARLIER pass has already wrapped into an Identifier (AS alias, typecast, argument of an aliased call), with an implicit
+# alias, nested twice, as CTE body, IN/EXISTS operand, JOIN operand, scalar subquery in a list, INSERT … SELECT, CREATE VIEW … AS, set operation operand
+QUERY_WRAPPERS = ['%s', 'SELECT * FROM (%s) sub', 'SELECT * FROM (%s) AS sub', 'select * from (%s) as sub where z = 1', 'SELECT (%s)::int FROM t2', 'SELECT (%s)::text AS s FROM t2',
+                  'SELECT f((%s)) AS n FROM t2', 'SELECT coalesce((%s), 0) c FROM t2', 'SELECT * FROM (SELECT * FROM (%s) AS i1) AS i2', 'SELECT * FROM (SELECT * FROM (%s) i1) i2',
+                  'SELECT ((%s)) AS pp FROM t2', 'WITH cq AS (%s) SELECT 1 FROM cq', 'SELECT x FROM t2 WHERE y IN (%s)', 'SELECT x FROM t2 WHERE EXISTS (%s)',
+                  'SELECT x FROM t2 JOIN (%s) AS j ON j.k = t2.k', 'SELECT x FROM t2 LEFT JOIN (%s) j ON j.k = t2.k', 'SELECT a, (%s) AS s, b1 FROM t2', 'INSERT INTO t3 %s',
+                  'CREATE VIEW v AS %s', 'SELECT 0 UNION ALL %s', '(%s) UNION (SELECT 0)', 'SELECT CASE WHEN (%s) > 0 THEN 1 END AS cc FROM t2', 'UPDATE t4 SET c = (%s)::int',
+                  'SELECT arr[(%s)] AS e FROM t2', 'SELECT * FROM (%s) AS sub ORDER BY 1', 'SELECT (%s) + 1 AS inc FROM t2', 'SELECT x FROM t2 WHERE y = (%s) AS_OF', 'SELECT (SELECT * FROM (%s) AS d1)::text AS d2']
+
+
+def _lists(stmts):
+    return [[str(i) for i in n.get_identifiers()] for st in stmts for n in _all_nodes(st) if isinstance(n, sql.IdentifierList)]
+
+
+def wrapped_cores(ctx):
+    """each core is (query, [(what, predicate over the parsed statements)])"""
+    def has_list(items):
+        return lambda sts: items in _lists(sts)
+    def has_where(c):
+        return lambda sts: any(str(n).rstrip().upper().startswith('WHERE') and str(n).rstrip()[5:].strip() == c for st in sts for n in _all_nodes(st) if isinstance(n, sql.Where))
+    def has_params(call, args):
+        return lambda sts: any(isinstance(n, sql.Function) and str(n) == call and [str(p_) for p_ in n.get_parameters()] == args for st in sts for n in _all_nodes(st))
+    def has_cmp(l, r):
+        return lambda sts: any(isinstance(n, sql.Comparison) and (str(n.left), str(n.right)) == (l, r) for st in sts for n in _all_nodes(st))
+    def has_typed(lit):
+        return lambda sts: any(isinstance(n, sql.TypedLiteral) and str(n) == lit for st in sts for n in _all_nodes(st))
+    def has_case(n_parts):
+        return lambda sts: any(isinstance(n, sql.Case) and len(n.get_cases(skip_ws=True)) == n_parts for st in sts for n in _all_nodes(st))
+    cores = []
+    for sel, frm in [(['a x', 'b1 y'], ['t1 p', 't2 q']), (['a', 'b1 y', 'col_x'], ['t1', 't2 q', 't3']), (['p.a x', 'q.b1 AS y', 'f(a, b1) w'], ['sch.t1 p', 't2 AS q']),
+                     (['a x', '"Q x" y', 'count(*) n'], ['t1 p', '"Q t" q', 't3 r']), (['a', 'b1'], ['t1', 't2'])]:
+        q = 'SELECT %s FROM %s' % (', '.join(sel), ', '.join(frm))
+        cores.append((q, [('select list is not one IdentifierList yielding the written items', has_list(sel), sel), ('FROM list is not one IdentifierList yielding the written items', has_list(frm), frm)]))
+        q2 = 'select %s from %s where p.k = q.k order by 1' % (','.join(sel), ' ,'.join(frm))
+        cores.append((q2, [('select list is not one IdentifierList yielding the written items', has_list(sel), sel), ('FROM list is not one IdentifierList yielding the written items', has_list(frm), frm),
+                           ('Where node does not span exactly WHERE … up to the next closing clause', has_where('p.k = q.k'), 'WHERE p.k = q.k')]))
+    cores.append(("SELECT fn(a, b1, 3) v FROM t WHERE t.c >= 42 GROUP BY a", [('Function.get_parameters() does not yield the written arguments', has_params('fn(a, b1, 3)', ['a', 'b1', '3']), ['a', 'b1', '3']),
+                  ('Where node does not span exactly WHERE … up to the next closing clause', has_where('t.c >= 42'), 'WHERE t.c >= 42'), ('no Comparison with the written operands', has_cmp('t.c', '42'), ['t.c', '42'])]))
+    cores.append(("SELECT CASE WHEN a = 1 THEN 'x' WHEN b1 > 0 THEN 'y' ELSE 'z' END lbl, d FROM t WHERE d > DATE '2020-01-01'",
+                  [('Case.get_cases() does not yield the written WHEN/THEN/ELSE parts', has_case(3), 3), ('typed literal is not one TypedLiteral node', has_typed("DATE '2020-01-01'"), "DATE '2020-01-01'"),
+                   ('no Comparison with the written operands', has_cmp('a', '1'), ['a', '1'])]))
+    return cores
+
+
+def _kf6_mechanism(sts, q):
+    """proposed KF-C13-6: the passes that build Identifiers (_group with cls=Identifier: group_as, group_period, …; group_identifier via @recurse(sql.Identifier)) do not
+    descend into an Identifier.  A parenthesised query that an EARLIER pass wrapped into an Identifier — `( … )::type` (group_typecasts runs before group_as) or an array
+    index `arr[( … )]` (group_arrays runs before group_identifier) — therefore keeps its `x AS y` (typecast) / all its names (array index) ungrouped."""
+    for st in sts:
+        for n in _all_nodes(st):
+            if isinstance(n, sql.Parenthesis) and str(n) == '(' + q + ')':
+                a = n
+                while a is not None:            # the query's own parenthesis or any enclosing one carries the typecast
+                    par = a.parent
+                    if isinstance(a, sql.Parenthesis) and isinstance(par, sql.Identifier):
+                        nxt = par.token_next(par.token_index(a))[1]
+                        if nxt is not None and nxt.match(T.Punctuation, '::'):
+                            return 'typecast'
+                    a = par
+                a = n.parent
+                while a is not None:
+                    if isinstance(a, sql.SquareBrackets):
+                        return 'array index'
+                    a = a.parent
+    return None
+
+
+def wrapper_sweep(ctx):
+    from common import load_known_findings
+    registered = {k.get('id') for k in load_known_findings()}
+    pend6 = 0
+    n = 0
+    for q, preds in wrapped_cores(ctx):
+        for wtext in QUERY_WRAPPERS:
+            text = wtext % q
+            n += 1
+            ctx.evaluations += 1
+            ctx.nontrivial.add(text)
+            try:
+                sts = sqlparse.parse(text)
+            except Exception as e:
+                ctx.fail('parse raised ' + type(e).__name__, text, observed=repr(e), required='tree')
+                continue
+            for what, pred, req in preds:
+                try:
+                    ok = pred(sts)
+                except Exception as e:
+                    ok = False
+                if not ok and 'IdentifierList' in what:
+                    mech = _kf6_mechanism(sts, q)
+                    if mech == 'array index' or (mech == 'typecast' and ' AS ' in q.upper()):
+                        if 'KF-C13-6' not in registered:
+                            pend6 += 1
+                            continue
+                        ctx.fail(what + ' (query in a %s, KF-C13-6)' % mech, text, observed=_lists(sts), required=req, wrapper=wtext, mechanism=mech)
+                        continue
+                if not ok:
+                    ctx.fail(what + ' (query in context)', text, observed=_lists(sts) if 'List' in what else [str(x)[:60] for st in sts for x in _all_nodes(st) if x.is_group and type(x).__name__ in what][:6],
+                             required=req, wrapper=wtext)
+    ctx.count('wrapper_sweep', n)
+    if pend6:
+        ctx.dist['pending-known-finding:KF-C13-6'] = pend6
+        ctx.notes.append('KF-C13-6 (proposed, not registered): %d witnesses — aliases inside a subquery that carries a typecast or stands in an array index are not attached (the Identifier-building passes do not descend into an Identifier)' % pend6)
+
+
 def run(ctx):
     rng = ctx.rng
     where_sweep(ctx)
     second_pass(ctx)
+    wrapper_sweep(ctx)
     texts = []
     fns = [check_where, check_list, check_call, check_case, check_typed]
     for it in range(ctx.n(1500, 30000)):
@@ -387,6 +494,8 @@ def domain_clause(ctx):
 
 
 def classify(f, kf):
+    if f.get('mechanism') in ('typecast', 'array index') and 'KF-C13-6' in str(f.get('what')) and any(k['id'] == 'KF-C13-6' for k in kf):
+        return 'KF-C13-6'
     """known findings by mechanism.  KF-C13-3 (a typed literal as a list item breaks the IdentifierList) puts the arguments of a call outside any
     list; KF-C13-1 (outside a list get_parameters collects only Function/Identifier/TypedLiteral children and Literal tokens) then drops the
     arguments that are bare keyword/placeholder tokens: `fn(:p1, DATE '2020-01-01')` -> ["DATE '2020-01-01'"]"""
